@@ -29,18 +29,28 @@ type World struct {
 	Funcs map[string]*ssa.Function // by RelString relative to main, source functions only
 	All   []*ssa.Function          // source functions of the main package, sorted by name
 	Files int
+	Inlined []string // new single-call-site helpers inlined into their callers before the analysis
 
-	flow *flowGraph // lazily built
+	flow      *flowGraph // lazily built
 	writerSet map[*ssa.Function]bool
 	effects   map[*ssa.Function]map[string]bool
-	thr  *threads   // lazily built
-	strKeep edgeKeep      // evalStr: phis of strFn are resolved under this edge filter when set
-	strFn   *ssa.Function
+	thr       *threads // lazily built
+	strKeep   edgeKeep // evalStr: phis of strFn are resolved under this edge filter when set
+	strFn     *ssa.Function
 }
 
 // Load type-checks /repo (non-test files, default build configuration), builds SSA for the
 // whole program and a VTA call graph. Any failure is returned: callers fail closed.
 func Load(dir string) (*World, error) {
+	w, err := load(dir, true)
+	if err != nil && strings.HasPrefix(err.Error(), "inline:") {
+		// the helper inliner is a convenience: if it cannot keep the IR consistent, analyse the program as written
+		w, err = load(dir, false)
+	}
+	return w, err
+}
+
+func load(dir string, inline bool) (*World, error) {
 	env := []string{}
 	for _, e := range os.Environ() {
 		if strings.HasPrefix(e, "GOFLAGS=") || strings.HasPrefix(e, "GOWORK=") ||
@@ -90,6 +100,13 @@ func Load(dir string) (*World, error) {
 	w := &World{Dir: dir, Fset: root.Fset, Pkg: root, Prog: prog, Main: spkgs[0], Files: len(root.GoFiles)}
 	if w.Main == nil {
 		return nil, fmt.Errorf("load: no SSA for root package")
+	}
+	if inline {
+		done, err := inlineNewHelpers(prog, w.Main)
+		if err != nil {
+			return nil, fmt.Errorf("inline: %v", err)
+		}
+		w.Inlined = done
 	}
 	all := ssautil.AllFunctions(prog)
 	w.CG = vta.CallGraph(all, cha.CallGraph(prog))
